@@ -237,10 +237,13 @@ func c29RunRaw(in []string) []string {
 	return obs
 }
 
-func c29GenOps(r *rand.Rand, impl string, nkeys int, maxw int, nops int, mw int) []string {
+func c29GenOps(r *rand.Rand, impl string, nkeys int, maxw int, nops int, mw int, roomy bool) []string {
 	var out []string
 	val := 100
 	wgt := func() string {
+		if roomy && r.Intn(10) != 0 {
+			return strconv.Itoa(r.Intn(maxw + 1))
+		}
 		switch r.Intn(8) {
 		case 0:
 			return "0"
@@ -280,7 +283,11 @@ func c29GenOps(r *rand.Rand, impl string, nkeys int, maxw int, nops int, mw int)
 			out = append(out, "WT")
 		case x < 86:
 			mw = r.Intn(8)
-			out = append(out, "Z", strconv.Itoa(mw), strconv.Itoa(r.Intn(7)))
+			sz := r.Intn(7)
+			if roomy {
+				mw, sz = 10+r.Intn(12), 3+r.Intn(4)
+			}
+			out = append(out, "Z", strconv.Itoa(mw), strconv.Itoa(sz))
 		case x < 89:
 			out = append(out, "PU")
 		default:
@@ -353,13 +360,17 @@ func init() {
 				case 3:
 					ms = 1000 // only the weight bound binds
 				}
+				roomy := r.Intn(4) == 0 // roomy cache: hits, refreshes and removals dominate, evictions by size
+				if roomy {
+					mw, ms = 12+r.Intn(10), 3+r.Intn(3)
+				}
 				nkeys := 4
 				if r.Intn(4) == 0 {
 					nkeys = 7
 				}
 				nops := 1 + r.Intn(60)
 				in := []string{impl, strconv.Itoa(mw), strconv.Itoa(ms)}
-				in = append(in, c29GenOps(r, impl, nkeys, 5, nops, mw)...)
+				in = append(in, c29GenOps(r, impl, nkeys, 5, nops, mw, roomy)...)
 				emit(in...)
 			}
 			// weights near 2^64: the uint arithmetic of the weight counter wraps (model vs impl only)
